@@ -512,14 +512,26 @@ theorem printMembersL_eq (ts : List Ty) : printMembersL ts = ts.map printMember 
   | nil => rfl
   | cons t ts ih => simp [printMembersL, printMember, ih]
 
+theorem printAtom_eq_printTy {t : Ty} (hf : t.frag = true) (hfn : ¬ ∃ i o, t = .func i o) :
+    printAtom t = printTy t := by
+  cases t with
+  | ident n args =>
+    cases args with
+    | nil =>
+      have : isPrimName n = false := by simpa [Ty.frag] using hf
+      simp [printAtom, atomWrap, this]
+    | cons a as => simp [Ty.frag] at hf
+  | func i o => exact absurd ⟨i, o, rfl⟩ hfn
+  | inter ts => simp [Ty.frag] at hf
+  | _ => rfl
+
 theorem printTy_head {t : Ty} (hf : t.frag = true) (hw : t.wf = true) :
     ∃ c s, printTy t = c :: s ∧ (atomHead c = true ∨ c = '#') := by
-  cases t with
-  | func i o => exact ⟨'#', _, by simp [printTy]; rfl, Or.inr rfl⟩
-  | inter ts => simp [Ty.frag] at hf
-  | _ =>
-    obtain ⟨c, s, h1, h2⟩ := printAtom_head hf hw
-    exact ⟨c, s, by simpa [printAtom, atomWrap] using h1, Or.inl h2⟩
+  by_cases hfn : ∃ i o, t = .func i o
+  · obtain ⟨i, o, rfl⟩ := hfn
+    exact ⟨'#', _, by simp [printTy]; rfl, Or.inr rfl⟩
+  · obtain ⟨c, s, h1, h2⟩ := printAtom_head hf hw
+    exact ⟨c, s, by rw [← printAtom_eq_printTy hf hfn]; exact h1, Or.inl h2⟩
 
 theorem typeHead_facts {c : Char} (h : atomHead c = true ∨ c = '#') :
     c ≠ '|' ∧ c ≠ '.' ∧ c ≠ '/' ∧ c ≠ '@' ∧ c ≠ ',' ∧ isLower c = false ∧ isMultispace c = false := by
@@ -757,7 +769,14 @@ theorem frag_no_spread {fs : List Field} (hf : Field.fragList fs = true) :
     | spread a b => simp [Field.frag] at hf
 
 theorem printMember_eq_atom {t : Ty} (hf : t.frag = true) : printMember t = printAtom t := by
-  cases t <;> simp_all [printMember, printAtom, memberWrap, atomWrap, Ty.frag]
+  cases t with
+  | ident n args =>
+    cases args with
+    | nil =>
+      have : isPrimName n = false := by simpa [Ty.frag] using hf
+      simp [printMember, printAtom, memberWrap, atomWrap, this]
+    | cons a as => simp [Ty.frag] at hf
+  | _ => simp_all [printMember, printAtom, memberWrap, atomWrap, Ty.frag]
 
 theorem barOp_step {c : Char} {X : Str} (hc : c = '|' ∨ c = '&')
     (h : headAll (fun c => !isMultispace c && c != '/') X = true) :
@@ -1062,8 +1081,7 @@ theorem td_ok {t : Ty} (hf : t.frag = true) (hw : t.wf = true) (hl : t.lvT ≤ L
       simp only [isMultispace, Bool.or_eq_false_iff, decide_eq_false_iff_not] at hws
       simp [hws.1.1.1, hws.1.1.2, hws.1.2, hws.2]
     rw [seq_ok harrow, pmap_ok (atom_ok hk hf.2 hw.2 hlo hrb).2]
-  · have hpa : printTy t = printAtom t := by
-      cases t <;> simp_all [printAtom, atomWrap, Ty.frag]
+  · have hpa : printTy t = printAtom t := (printAtom_eq_printTy hf hfn).symm
     have hlv : t.lvA ≤ L + 1 := by
       cases t <;> simp_all [Ty.lvT]
     rw [hpa]
